@@ -8,7 +8,9 @@ package characteristic
 //@ ghost callcount() int
 // application callbacks never write the library's model objects (stated assumption, DESIGN.md section 8.6)
 // and never register or remove callbacks while one runs (no func-typed memory cell changes during a callback)
-//@ callbackframe github.com/brutella/hc/characteristic.Characteristic, heapof(func)
+//@ callbackframe github.com/brutella/hc/characteristic.Characteristic, heapof(func), github.com/brutella/hc/service.Service, github.com/brutella/hc/accessory.Accessory, github.com/brutella/hc/accessory.Container, []*github.com/brutella/hc/service.Service, []*github.com/brutella/hc/characteristic.Characteristic, []*github.com/brutella/hc/accessory.Accessory, github.com/brutella/hc/hap/http.Server
+// modelKept(): no service, accessory, container or server object and none of their pointer lists changed
+//@ pred modelKept() = unchangedtypes("github.com/brutella/hc/service.Service", "github.com/brutella/hc/accessory.Accessory", "github.com/brutella/hc/accessory.Container", "[]*github.com/brutella/hc/service.Service", "[]*github.com/brutella/hc/characteristic.Characteristic", "[]*github.com/brutella/hc/accessory.Accessory", "github.com/brutella/hc/hap/http.Server")
 
 // ---- permissions (C11)
 //@ pred hasPerm(perms, p) = exists(i, 0, len(perms), perms[i] == p)
@@ -81,18 +83,18 @@ package characteristic
 //@ func (c *Characteristic) onValueUpdate(funcs, newValue, oldValue)
 //@   requires c != nil && forall(i, 0, len(funcs), funcs[i] != nil)
 //@   modifies heap, callcount
-//@   ensures sameobj(c) && sametype(c) && sameheap("func") && callcount() >= old(callcount())
+//@   ensures sameobj(c) && sametype(c) && sameheap("func") && modelKept() && callcount() >= old(callcount())
 //@   loop 0
 //@     invariant idx: 0 <= loopidx && loopidx <= len(funcs)
-//@     invariant same: sameobj(c) && sametype(c) && sameheap("func") && callcount() >= old(callcount())
+//@     invariant same: sameobj(c) && sametype(c) && sameheap("func") && modelKept() && callcount() >= old(callcount())
 //@     invariant nonnil: forall(i, 0, len(funcs), funcs[i] != nil)
 //@ func (c *Characteristic) onValueUpdateFromConn(funcs, conn, newValue, oldValue)
 //@   requires c != nil && forall(i, 0, len(funcs), funcs[i] != nil)
 //@   modifies heap, callcount
-//@   ensures sameobj(c) && sametype(c) && sameheap("func") && callcount() >= old(callcount())
+//@   ensures sameobj(c) && sametype(c) && sameheap("func") && modelKept() && callcount() >= old(callcount())
 //@   loop 0
 //@     invariant idx: 0 <= loopidx && loopidx <= len(funcs)
-//@     invariant same: sameobj(c) && sametype(c) && sameheap("func") && callcount() >= old(callcount())
+//@     invariant same: sameobj(c) && sametype(c) && sameheap("func") && modelKept() && callcount() >= old(callcount())
 //@     invariant nonnil: forall(i, 0, len(funcs), funcs[i] != nil)
 
 // bounds declared by the constructors are finite floats (C15 pins them); needed so that clamping yields a finite value
@@ -105,22 +107,22 @@ package characteristic
 //@   ensures sameMeta: c.Format == old(c.Format) && c.Perms == old(c.Perms) && c.MinValue == old(c.MinValue) && c.MaxValue == old(c.MaxValue) && c.ID == old(c.ID)
 //@   ensures noWrite: checkPerms && !old(hasPerm(c.Perms, "pw")) ==> c.Value == old(c.Value) && callcount() == old(callcount())
 //@   ensures noRead: !old(hasPerm(c.Perms, "pr")) ==> c.Value == old(c.Value)
-//@   ensures others: sametype(c) && sameheap("func")
+//@   ensures others: sametype(c) && sameheap("func") && modelKept()
 //@   ensures quiet: old(hasPerm(c.Perms, "pr")) && c.Value == old(c.Value) && !c.updateOnSameValue ==> callcount() == old(callcount())
 
 //@ func (c *Characteristic) getValue(conn) (v)
 //@   requires wellTyped(c) && finiteBounds(c)
 //@   modifies heap, callcount
-//@   ensures wellTyped(c) && finiteBounds(c) && v == c.Value && sametype(c) && sameheap("func") && c.ID == old(c.ID)
+//@   ensures wellTyped(c) && finiteBounds(c) && v == c.Value && sametype(c) && sameheap("func") && modelKept() && c.ID == old(c.ID)
 
 //@ func (c *Characteristic) UpdateValue(value)
 //@   requires wellTyped(c) && finiteBounds(c)
 //@   modifies heap, callcount
-//@   ensures wellTyped(c) && finiteBounds(c) && sametype(c) && sameheap("func")
+//@   ensures wellTyped(c) && finiteBounds(c) && sametype(c) && sameheap("func") && modelKept()
 //@ func (c *Characteristic) UpdateValueFromConnection(value, conn)
 //@   requires wellTyped(c) && finiteBounds(c)
 //@   modifies heap, callcount
-//@   ensures wellTyped(c) && finiteBounds(c) && sametype(c) && sameheap("func") && c.ID == old(c.ID)
+//@   ensures wellTyped(c) && finiteBounds(c) && sametype(c) && sameheap("func") && modelKept() && c.ID == old(c.ID)
 //@   ensures noWrite: !old(hasPerm(c.Perms, "pw")) ==> c.Value == old(c.Value) && callcount() == old(callcount())
 //@ func (c *Characteristic) GetValue() (v)
 //@   requires wellTyped(c) && finiteBounds(c)
@@ -129,4 +131,4 @@ package characteristic
 //@ func (c *Characteristic) GetValueFromConnection(conn) (v)
 //@   requires wellTyped(c) && finiteBounds(c)
 //@   modifies heap, callcount
-//@   ensures wellTyped(c) && finiteBounds(c) && v == c.Value && sametype(c) && sameheap("func") && c.ID == old(c.ID)
+//@   ensures wellTyped(c) && finiteBounds(c) && v == c.Value && sametype(c) && sameheap("func") && modelKept() && c.ID == old(c.ID)
